@@ -22,7 +22,7 @@ def showE {α} (f : α → String) : Except PyErr α → String
 
 /-! R16 histories on the object-with-caller-arrays model (`Model/C01Alias.lean`), exact over `Rat`.
     Words: `F<b>=<re,im,..>` refill complex array b · `I<b>=<i,..>` refill index array b ·
-    `T=<re,im,..>` table made by the object · `S<b>` setConstellation(array b) · `D<b>` demodulate(array b) ·
+    `T=<re,im,..>` table made by the object · `S<b>` setConstellation(array b), keeping the array · `C<b>` the same, copying it · `D<b>` demodulate(array b) ·
     `M<b>` modulate(index array b).  Reply: the outputs of the calls, `;`-separated. -/
 def parseAOp (w : String) : Option (AOp Rat) :=
   let tag := w.take 1
@@ -40,6 +40,7 @@ def parseAOp (w : String) : Option (AOp Rat) :=
       let v ← parseRatList? v >>= pairs
       some (.install v)
   | "S", [b] => b.toNat?.map .setConstellation
+  | "C", [b] => b.toNat?.map .setConstellationCopy
   | "D", [b] => b.toNat?.map .demodulate
   | "M", [b] => b.toNat?.map .modulate
   | _, _ => none
